@@ -56,7 +56,7 @@ class SyntaxLines(Part):
     name = "syntax"
     rule = ("sources of 0-8 lines with 0-3 leading and trailing blank lines, tabs, wide characters, with/without final newline x lexer {python, json, html, "
             "text, unknown} x line_numbers x start_line 1..10000 x line_range (inside, straddling, beyond, start < 1) x highlight_lines x word_wrap x "
-            "code_width x indent_guides x theme x tab_size x width (wide: exact text; narrow: numbers only) x 1-3 renders of the same object; sources may contain FF/VT/U+2028/U+2029 "
+            "code_width x indent_guides x theme x tab_size x width (wide: exact text; narrow: numbers only) x 1-3 renders of the same object, optionally made for and shown with other code first (its .code replaced afterwards); sources may contain FF/VT/U+2028/U+2029 "
             "(line boundaries for str.splitlines only); non-trivial = line numbers on and (a leading "
             "blank line or a range crossing the end)")
     budget = {"quick": (8, 800), "thorough": (16, 8000)}
@@ -65,11 +65,13 @@ class SyntaxLines(Part):
     def strategy(self, tier):
         rng = st.one_of(st.none(), st.none(), st.tuples(st.integers(-2, 12), st.integers(1, 14)).map(lambda t: [t[0], max(1, t[0], t[1])]))
         return st.builds(
-            lambda code, lexer, ln, start, lr, hl, ww, cw, ig, theme, ts, narrow, rn, fp, ft: {"code": code, "lexer": lexer, "line_numbers": ln, "start_line": start, "line_range": lr if ln else None, "highlight": hl,
+            lambda code, lexer, ln, start, lr, hl, ww, cw, ig, theme, ts, narrow, rn, fp, ft, rc: {"recode": rc, "code": code, "lexer": lexer, "line_numbers": ln, "start_line": start, "line_range": lr if ln else None, "highlight": hl,
                                                                                     "word_wrap": ww, "code_width": cw, "indent_guides": ig, "theme": theme, "tab_size": ts, "narrow": narrow, "renders": rn, "from_path": fp, "fitted": ft},
             source(), st.sampled_from(LEXERS), st.sampled_from([True, True, False]), st.one_of(st.just(1), st.integers(1, 10000), st.sampled_from([9, 99, 999])), rng,
             st.lists(st.integers(1, 12), max_size=3), st.booleans(), st.one_of(st.none(), st.none(), st.integers(20, 60)), st.booleans(), st.sampled_from(THEMES), st.sampled_from([4, 4, 8, 2]),
             st.one_of(st.none(), st.none(), st.integers(12, 30)), st.sampled_from([1, 1, 2, 3]), st.sampled_from([None, None, None, "json", "html", "py", "txt", "python"]), st.sampled_from([False, False, True]),
+            # history: the object was made for (and shown with) other code first, then its .code attribute was replaced
+            st.sampled_from([None, None, None, "x = 1", "a\nb\nc\n", "\n" * 12 + "z"]),
         )
 
     def check(self, spec, ctx):
@@ -95,8 +97,13 @@ class SyntaxLines(Part):
             finally:
                 shutil.rmtree(d0, ignore_errors=True)
             ctx.cls("after-from_path")
-        syn = sut(Syntax, code, spec["lexer"], theme=spec["theme"], line_numbers=numbers, start_line=start, line_range=tuple(lr) if lr else None,
+        syn = sut(Syntax, code if spec.get("recode") is None else spec["recode"], spec["lexer"], theme=spec["theme"], line_numbers=numbers, start_line=start, line_range=tuple(lr) if lr else None,
                   highlight_lines=set(spec["highlight"]), word_wrap=spec["word_wrap"], code_width=spec["code_width"] if not spec["narrow"] else None, indent_guides=spec["indent_guides"], tab_size=ts)
+        if spec.get("recode") is not None:
+            c1 = sut(Console, file=io.StringIO(), width=W, color_system=None, _environ={})
+            sut(c1.print, syn)
+            syn.code = code
+            ctx.cls("code-replaced-after-first-use")
         # the same Syntax object is rendered more than once (a Live refresh, two consoles): every render shows the same lines
         for ri in range(spec.get("renders", 1)):
             con = sut(Console, file=io.StringIO(), width=W, color_system="truecolor", force_terminal=True, legacy_windows=False, _environ={})
